@@ -15,6 +15,7 @@ def run(ctx):
     ctx.assumptions += ["EditOK: start <= old_end <= |text| and the edit's points are the row/column of its bytes",
                         "documents < 4 GiB"]
     ctx.regen()
+    ctx.validate_translator()
     ctx.prove(["TsVerif.C10.Props"], "TsVerif/C10/Audit.lean")
     driver = ctx.build_driver("tsv-c10")
     explorer = ctx.cargo_bin("c10")
